@@ -225,9 +225,19 @@ func (fx *Fx) autoLoopEntry(st *State, li *LoopInfo) *State {
 	cands := fx.autoCandidateTerms(li, pre, hv)
 	alive := map[string]bool{}
 	entry := fx.autoCandidateTerms(li, pre, pre)
-	for lbl := range cands {
-		if g, ok := entry[lbl]; ok && fx.provable(st, g) {
-			alive[lbl] = true
+	{
+		var lbls []string
+		var goals []*Term
+		for lbl := range cands {
+			if g, ok := entry[lbl]; ok {
+				lbls = append(lbls, lbl)
+				goals = append(goals, g)
+			}
+		}
+		for i, ok := range fx.provableMany(st, goals) {
+			if ok {
+				alive[lbls[i]] = true
+			}
 		}
 	}
 	// What the body may write: a preliminary dry run from the entry memory.  Every candidate check below runs the
@@ -249,9 +259,12 @@ func (fx *Fx) autoLoopEntry(st *State, li *LoopInfo) *State {
 	// "objects that existed when the function was entered keep the contents they had before the loop"
 	preH := st.H
 	heapAlive := map[Kind]bool{}
-	for k := Kind(0); k < numKinds; k++ {
-		if writes.wide[k] {
-			heapAlive[k] = true
+	// (only where a frame obligation will use it: the quantified fact slows every later query down)
+	if fx.C != nil && (!fx.C.Sweep || fx.C.HasModifies) && !fx.C.NoFrame {
+		for k := Kind(0); k < numKinds; k++ {
+			if writes.wide[k] {
+				heapAlive[k] = true
+			}
 		}
 	}
 	heapFrame := func(k Kind, cur *Term) *Term {
@@ -308,30 +321,41 @@ func (fx *Fx) autoLoopEntry(st *State, li *LoopInfo) *State {
 			if os.Getenv("GVC_DEBUG_INV") != "" && fx.provable(a, Eq(BVConst(0, 64), Sym("dbg!free", B64))) {
 				fmt.Fprintf(os.Stderr, "[auto-invariants %s loop%d] back edge unreachable in iteration %d\n", fx.Name, li.Ordinal, iter)
 			}
-			for k := range heapAlive {
-				if a.H[k] != preH[k] && !fx.provable(a, heapFrame(k, a.H[k])) {
-					delete(heapAlive, k)
-					dropped = true
-				}
-			}
-			// all surviving candidates at once first: at the fixpoint this is the only query
+			// one concurrent batch: the conjunction of all surviving candidates (at the fixpoint the only answer
+			// needed), each candidate on its own, and the heap frame candidates
 			all := True()
-			complete := true
+			var lbls []string
+			goals := []*Term{nil}
 			for lbl := range alive {
-				g, ok := next[lbl]
-				if !ok {
-					complete = false
-					break
+				lbls = append(lbls, lbl)
+				g := next[lbl] // nil when the candidate is not defined here: not provable
+				goals = append(goals, g)
+				if g == nil {
+					all = nil
+				} else if all != nil {
+					all = And(all, g)
 				}
-				all = And(all, g)
 			}
-			if complete && fx.provable(a, all) {
-				continue
+			goals[0] = all
+			var hk []Kind
+			for k := range heapAlive {
+				if a.H[k] != preH[k] {
+					hk = append(hk, k)
+					goals = append(goals, heapFrame(k, a.H[k]))
+				}
 			}
-			for lbl := range alive {
-				g, ok := next[lbl]
-				if !ok || !fx.provable(a, g) {
-					delete(alive, lbl)
+			res := fx.provableMany(a, goals)
+			if !(all != nil && res[0]) {
+				for i, lbl := range lbls {
+					if !res[1+i] {
+						delete(alive, lbl)
+						dropped = true
+					}
+				}
+			}
+			for i, k := range hk {
+				if !res[1+len(lbls)+i] {
+					delete(heapAlive, k)
 					dropped = true
 				}
 			}
@@ -480,26 +504,40 @@ func (fx *Fx) autoVariant(li *LoopInfo, pre, hv map[*ssa.Phi]Val, arrivals []*St
 			}
 		}
 	}
-	for _, m := range ms {
-		cur := m.f(hv)
-		if cur == nil {
-			continue
+	// all measures on all arrivals in one concurrent batch; the first measure that decreases on every arrival wins
+	okm := make([]bool, len(ms))
+	for i := range okm {
+		okm[i] = true
+	}
+	for _, a := range arrivals {
+		nv := map[*ssa.Phi]Val{}
+		for _, p := range phis {
+			v := a.Top().Vals[p]
+			v.T = p.Type()
+			nv[p] = v
 		}
-		ok := true
-		for _, a := range arrivals {
-			nv := map[*ssa.Phi]Val{}
-			for _, p := range phis {
-				v := a.Top().Vals[p]
-				v.T = p.Type()
-				nv[p] = v
+		goals := make([]*Term, len(ms))
+		for i, m := range ms {
+			cur := m.f(hv)
+			if cur == nil || !okm[i] {
+				okm[i] = false
+				continue
 			}
 			nx := m.f(nv)
-			if nx == nil || !fx.provable(a, And(BVOp("bvslt", nx, cur), BVOp("bvsle", BVConst(0, 64), cur))) {
-				ok = false
-				break
+			if nx == nil {
+				okm[i] = false
+				continue
+			}
+			goals[i] = And(BVOp("bvslt", nx, cur), BVOp("bvsle", BVConst(0, 64), cur))
+		}
+		for i, ok := range fx.provableMany(a, goals) {
+			if goals[i] != nil && !ok {
+				okm[i] = false
 			}
 		}
-		if ok {
+	}
+	for i, m := range ms {
+		if okm[i] {
 			return m.label
 		}
 	}
